@@ -18,6 +18,12 @@ def N(name, props, why, *edits):
     NEUTRAL.append({'name': name, 'props': props, 'why': why, 'edits': list(edits)})
 
 
+def NP(name, props, why, *patches):
+    """A neutral edit given as a patch file (relative to /verif): behaviour-preserving refactors written by
+    independent sub-agents, see selftest/neutral/*.NOTES.md."""
+    NEUTRAL.append({'name': name, 'props': props, 'why': why, 'edits': [], 'apply': list(patches)})
+
+
 MEMBER = 'src/member.rs'
 LIB = 'src/lib.rs'
 
@@ -992,3 +998,13 @@ M('h_reservoir_ignores_picker_on_replace', ['C19', 'C12', 'C07'], ['C19-R0'], 'r
             if num_chosen < wanted {'''))
 M('h_serialize_other_member', ['C10', 'C15'], ['C10-R0'], 'serialize_member encodes a default-incarnation copy',
   (LIB, '            .encode_member(&member, &mut buf)\n            .map_err(|e| Error::Encode(Box::new(e)))?;\n\n        Ok(buf)', '            .encode_member(&Member::new(member.id().clone(), 0, member.state()), &mut buf)\n            .map_err(|e| Error::Encode(Box::new(e)))?;\n\n        Ok(buf)'))
+
+# ---------------------------------------------------------------- neutral: multi-edit refactors by sub-agents
+NP('n_ref_member_rs', ALL, 'R1: 12 behaviour-preserving refactors of src/member.rs', 'selftest/neutral/R1.diff')
+NP('n_ref_broadcast_rs', ALL, 'R2: 13 behaviour-preserving refactors of src/broadcast.rs', 'selftest/neutral/R2.diff')
+NP('n_ref_probe_runtime', ALL, 'R3: 12 behaviour-preserving refactors of src/probe.rs and src/runtime.rs', 'selftest/neutral/R3.diff')
+NP('n_ref_handle_data', ALL, 'R4: 10 behaviour-preserving refactors of handle_data / accept_payload', 'selftest/neutral/R4.diff')
+NP('n_ref_handle_timer', ALL, 'R5: 11 behaviour-preserving refactors of handle_timer / probe_random_member', 'selftest/neutral/R5.diff')
+NP('n_ref_send_message', ALL, 'R6: 12 behaviour-preserving refactors of send_message / estimate_feed_capacity', 'selftest/neutral/R6.diff')
+NP('n_ref_identity_fns', ALL, 'R7: 14 behaviour-preserving refactors of the identity/connection-state functions', 'selftest/neutral/R7.diff')
+NP('n_ref_apply_broadcast_fns', ALL, 'R8: 10 behaviour-preserving refactors of apply_update/add_broadcast/set_config/...', 'selftest/neutral/R8.diff')
